@@ -3,7 +3,7 @@ import ast
 import json
 
 from .. import e1, refvm
-from ..asm import BASE, G, INST, SG, alphabet
+from ..asm import BASE, G, INST, SG, alphabet, asm
 from ..common import Report
 
 PROP = "C09"
@@ -91,6 +91,38 @@ def trace_oracle(term, out):
         elif e1._canon_ast(t2, {}) != want or e1._canon_ast(t1, {}) != want:
             out.violate(PROP, "C09|trace|second-trace-differs", "tracing the same interpreter twice returns a different program",
                         term.replay(), len(term.seq))
+    except RecursionError:
+        pass
+    # opcodes after the first STOP are dead code for the VM; traced and untraced decompilation must agree on that too
+    try:
+        tail = fk.Pickled.load(asm(("BININT1", 7), "STOP"))
+        pa, pb = fk.Pickled.load(term.data), fk.Pickled.load(term.data)
+        pa.extend(list(tail))
+        pb.extend(list(tail))
+        ta, _x = e1.capture_stdout(lambda: Trace(fk.Interpreter(pa)).run())
+        ua = fk.Interpreter(pb).to_ast()
+        if e1._canon_ast(ta, {}) != e1._canon_ast(ua, {}):
+            out.violate(PROP, "C09|trace|differs-with-opcodes-after-STOP", "traced and untraced decompilation differ for a program with opcodes after STOP",
+                        term.replay(), len(term.seq))
+        elif e1._canon_ast(ua, {}) != e1._canon_ast(ref, {}):
+            out.violate(PROP, "C09|opcodes-after-STOP-executed", "opcodes after the first STOP change the decompiled program (the VM stops there)",
+                        term.replay(), len(term.seq))
+    except RecursionError:
+        pass
+    # a trace attached to a partially stepped interpreter reports exactly the remaining opcodes
+    try:
+        n = len(names)
+        for k in sorted({1, n - 1}):
+            if 0 < k < n:
+                ik = fk.Interpreter(fk.Pickled.load(term.data))
+                for _ in range(k):
+                    ik.step()
+                _t, pk = e1.capture_stdout(lambda: Trace(ik).run())
+                got = [ln for ln in pk.split("\n") if ln and not ln.startswith("\t")]
+                if got != names[k:]:
+                    out.violate(PROP, "C09|trace|partial-opcode-lines", f"after {k} manual steps the trace printed {got}, remaining program is {names[k:]}",
+                                term.replay(), len(term.seq))
+                    break
     except RecursionError:
         pass
     if p.dumps() != before or before != term.data:
